@@ -19,7 +19,7 @@ RULE = ("cases from rng(seed, 17, 0, i): object category = i mod 6 of pose / ver
         "distinct = fingerprint(x, mutation); non-trivial = mutation other than copy with a decided expectation.")
 REQ = ["eval:equals-never-raises", "eval:equals-expected-true", "eval:equals-expected-false", "cat:pose", "cat:vertex", "cat:odo", "cat:lm", "cat:custom", "cat:graph", "mut:copy",
        "mut:perturb_below", "mut:perturb_above", "mut:class_same_size", "mut:class_other_size", "mut:id", "mut:edge_class", "mut:estimate_size", "mut:information_shape",
-       "mut:graph_extra_element", "mut:graph_order", "mut:offset", "mut:offset_id", "mut:edge_subclass", "class:graph_multi_scale", "class:default_tol_argument_omitted"]
+       "mut:graph_extra_element", "mut:graph_order", "mut:offset", "mut:offset_id", "mut:edge_subclass", "class:graph_multi_scale", "class:default_tol_argument_omitted", "mut:ids_container", "class:graphs_used_and_restored_before_comparison"]
 PLAN = {
     "quick": {"cases": 12000, "soft_s": 60, "min_nontrivial": 3000, "require": REQ},
     "thorough": {"cases": 800000, "soft_s": 1200, "min_nontrivial": 200000, "require": REQ},
@@ -178,7 +178,7 @@ def elem_case(ctx, cat, rng, tol):
     if cat != "pose":
         muts += ["id"]
     if cat in ("odo", "lm", "custom"):
-        muts += ["edge_class", "edge_subclass", "estimate_size", "information_shape", "n_vertex_ids"]
+        muts += ["edge_class", "edge_subclass", "estimate_size", "information_shape", "n_vertex_ids", "ids_container"]
     if cat == "lm":
         muts += ["offset", "offset_id", "offset_none"]
     mut = str(rng.choice(muts))
@@ -188,6 +188,8 @@ def elem_case(ctx, cat, rng, tol):
         feats["edge_type"] = spec["type"]
     exp_xy = exp_yx = None
     if mut == "copy":
+        exp_xy = exp_yx = True
+    elif mut == "ids_container":
         exp_xy = exp_yx = True
     elif mut == "perturb":
         names = arrays_of(cat, spec)
@@ -269,6 +271,9 @@ def elem_case(ctx, cat, rng, tol):
         exp_xy = exp_yx = False
     try:
         y = subclass_instance(x) if mut == "edge_subclass" else build_obj(cat, s2)
+        if mut == "ids_container":
+            # the same ids held in a tuple / numpy array instead of a list (the loader produces lists; client code is free to pass tuples)
+            y.vertex_ids = tuple(y.vertex_ids) if rng.random() < 0.5 else np.array(y.vertex_ids)
     except Exception:
         ctx.skip("mutated object could not be constructed")
         return
@@ -300,8 +305,10 @@ def graph_case(ctx, rng, tol):
             v["pose"] = [x * sc for x in v["pose"][:nt]] + list(v["pose"][nt:])
         s2 = gen.copy_spec(spec)
         ctx.count("class:graph_multi_scale")
+    stale = False
     if mut == "copy":
         exp = (True, True)
+        stale = bool(rng.random() < 0.5)
     elif mut in ("perturb_vertex", "perturb_edge"):
         below = rng.random() < 0.5
         m = float(10 ** (rng.uniform(-12, -1.5) if below else rng.uniform(1.5, 3)))
@@ -353,6 +360,24 @@ def graph_case(ctx, rng, tol):
         ctx.skip("graph could not be constructed")
         return
     case = {"category": "graph", "x": {k: v for k, v in spec.items() if k != "truth_by_id"}, "y": {k: v for k, v in s2.items() if k != "truth_by_id"}, "tol": tol}
+    if stale:
+        # both graphs have been used (chi2 computed / optimized) and one of them was then edited and restored through its public attributes:
+        # element by element they are identical again, whatever they cached meanwhile
+        with np.errstate(all="ignore"):
+            try:
+                x.calc_chi2()
+                v = y._vertices[int(rng.integers(len(y._vertices)))]
+                keep = v.pose
+                v.pose = M.mkpose(M.kind(v.pose), [t + 1.0 for t in M.fl(v.pose)])
+                y.calc_chi2()
+                M.quiet_optimize(y, max_iter=1, tol=0.0, fix_first_pose=False)
+                for vv, sv in zip(y._vertices, s2["vertices"]):
+                    vv.pose = M.mkpose(sv["kind"], sv["pose"])
+                v.pose = keep
+                feats = dict(feats, used_before_comparison=True)
+                ctx.count("class:graphs_used_and_restored_before_comparison")
+            except Exception:
+                pass
     call_both(ctx, x, y, tol, exp[0], exp[1], feats, case)
     if mut != "copy":
         ctx.nontrivial(gen.fingerprint(case))
